@@ -203,12 +203,24 @@ def path_agreement(ctx, P, py, rule="NEWICK-PATHS"):
                     if isinstance(a_, ast.Assign) and any(isinstance(t_, ast.Name) and t_.id == nme for t_ in a_.targets):
                         t += " " + expanded(a_.value, depth - 1)
         return t
-    width_args = [expanded(c.args[0]) for c in logs if c.args and "num_nodes" not in ast.unparse(c.args[0])]
+    # the digit count of a branch length is taken either from log10(x) or from len(str(int(x))): x is the "width source"
+    lens = [c for c in ast.walk(ff) if isinstance(c, ast.Call) and ast.unparse(c.func) == "len" and c.args
+            and isinstance(c.args[0], ast.Call) and ast.unparse(c.args[0].func) == "str"]
+    sources = [c.args[0] for c in logs if c.args] + [c.args[0].args[0] for c in lens if c.args[0].args]
+    width_args = [expanded(e) for e in sources if "num_nodes" not in ast.unparse(e)]
     okw = bool(width_args) and all(re.search(r"self\.time\(root\)\s*-", w) and re.search(r"min", w) for w in width_args)
     ctx.ob(rule, "py|fast-buffer-width", okw, m.loc(logs[0]) if logs else m.loc(ff),
            "digits of a branch length are estimated from time(root) minus the smallest node time" if okw else
            "the buffer for the C path is sized from `%s`: a branch length is a difference of times, and with negative node times it "
            "has more digits than the root's time (TSK_ERR_BUFFER_OVERFLOW on the fast path only)" % (width_args[0][:80] if width_args else "?"))
+    # ... and the count is exact: ceil(log10(x)) is 0 for every x below 10 and one short for 10, 100, …; the accepted forms are
+    # len(str(int(x))) and floor(log10(x)) + 1
+    ceil_logs = [c for c in ast.walk(ff) if isinstance(c, ast.Call) and ast.unparse(c.func) in ("math.ceil", "np.ceil")
+                 and c.args and any(l_ is y for l_ in logs for y in ast.walk(c.args[0]))]
+    ctx.ob(rule, "py|fast-buffer-digits", not ceil_logs, m.loc(ceil_logs[0]) if ceil_logs else m.loc(ff),
+           "digit counts in the buffer estimate are exact (len(str(int(x))) / floor(log10(x)) + 1)" if not ceil_logs else
+           "`%s` undercounts digits (0 for every value below 10, one short for powers of ten): the C path gets a buffer that is too "
+           "small for chains of labelled nodes" % ast.unparse(ceil_logs[0])[:60])
     tm = py.mod("text_formats")
     bn = py.func("text_formats", "_build_newick")
     # the ':' branch length append must be inside the loop over children
